@@ -488,7 +488,7 @@ def parseShow : P Stmt := do
   else if cur.ty == t_IDENT && asciiLower cur.text == "databases".toUTF8.toList then pure .showDatabases
   else fail .syntax
 
-/-- `p.Parse()` -/
+/-- `p.parseStatement()` -/
 def parseStmt (f : Nat) : P Stmt := do
   let cur ← curTok
   advance
@@ -509,9 +509,20 @@ inductive Outcome where
   | fuel
 deriving Repr
 
+/-- `for p.match(SEMICOLON) {}`: the semicolons that may close a statement -/
+def dropSemis : List Token → List Token
+  | [] => []
+  | t :: rest => if t.ty == t_SEMICOLON then dropSemis rest else t :: rest
+
+/-- the end-of-input test of `Parser.Parse`: behind the statement and its closing semicolons the
+parser stands on the EOF token (or past the last token) -/
+def atEnd (rest : List Token) : Bool := ((dropSemis rest).headD eofToken).ty == t_EOF
+
+/-- `Parser.Parse` as called by `engine.parseSQL`: one statement (`parseStmt`, the Go
+`parseStatement`), closing semicolons, end of input - anything else is a syntax error. -/
 def parseTokens (ts : List Token) : Outcome :=
   match parseStmt (ts.length + 2) ts with
-  | .ok s _ => .ok s
+  | .ok s rest => if atEnd rest then .ok s else .err .syntax
   | .err e => .err e
   | .panic s => .panic s
   | .fuel => .fuel
